@@ -13,6 +13,8 @@ package s2
 //@ spec func vcCellOK(c Cell) bool = vcValid(c.id) && int(c.level) == c.id.Level() && int(c.face) == c.id.Face() && 0 <= c.orientation && c.orientation < 4
 
 //@ func CellFromCellID(id CellID) Cell
+//@   deterministic
+//@   opaque
 //@   ensures [id] result.id == id
 //@   ensures [fields] vcValid(id) ==> vcCellOK(result)
 //@   ensures [orientation] int(result.orientation) == vcOrientOf(id.faceIJOrientation())
@@ -69,17 +71,24 @@ package s2
 
 // The bound of a face cell is a literal per face. Exact IEEE evaluation: each contains the face centre and the
 // midpoints of the face's four edges (which lie on the literal rectangle's boundary, i.e. inside after the expansion).
+//@ property C12 C10
 //@ func (c Cell) RectBound() Rect
 //@   fp
-//@   requires c.level == 0 && 0 <= c.face && c.face < 6 && vcRectConsts()
+//@   deterministic
+//@   opaque
+//@   requires 0 <= c.face && c.face < 6 && vcRectConsts()
 // poleMinLat is computed at package initialisation as asin(sqrt(1/3)) - eps/2, about 0.6155 (35.26 degrees): only its range is needed
 //@   requires 0.6 < poleMinLat && poleMinLat < 0.62
-//@   ensures [face0] c.face == 0 ==> vcRectHas(result, 0, 0) && vcRectHas(result, 0, math.Pi/4) && vcRectHas(result, 0, -math.Pi/4) && vcRectHas(result, math.Pi/4, 0) && vcRectHas(result, -math.Pi/4, 0)
-//@   ensures [face1] c.face == 1 ==> vcRectHas(result, 0, math.Pi/2) && vcRectHas(result, 0, math.Pi/4) && vcRectHas(result, 0, 3*math.Pi/4) && vcRectHas(result, math.Pi/4, math.Pi/2) && vcRectHas(result, -math.Pi/4, math.Pi/2)
-//@   ensures [face2] c.face == 2 ==> vcRectHas(result, math.Pi/2, 0) && vcRectHas(result, math.Pi/4, 0) && vcRectHas(result, math.Pi/4, math.Pi/2) && vcRectHas(result, math.Pi/4, math.Pi) && vcRectHas(result, math.Pi/4, -math.Pi/2)
-//@   ensures [face3] c.face == 3 ==> vcRectHas(result, 0, math.Pi) && vcRectHas(result, 0, -math.Pi) && vcRectHas(result, 0, 3*math.Pi/4) && vcRectHas(result, 0, -3*math.Pi/4) && vcRectHas(result, math.Pi/4, math.Pi) && vcRectHas(result, -math.Pi/4, math.Pi)
-//@   ensures [face4] c.face == 4 ==> vcRectHas(result, 0, -math.Pi/2) && vcRectHas(result, 0, -math.Pi/4) && vcRectHas(result, 0, -3*math.Pi/4) && vcRectHas(result, math.Pi/4, -math.Pi/2) && vcRectHas(result, -math.Pi/4, -math.Pi/2)
-//@   ensures [face5] c.face == 5 ==> vcRectHas(result, -math.Pi/2, 0) && vcRectHas(result, -math.Pi/4, 0) && vcRectHas(result, -math.Pi/4, math.Pi/2) && vcRectHas(result, -math.Pi/4, math.Pi) && vcRectHas(result, -math.Pi/4, -math.Pi/2)
+//@   ensures [face0] c.level == 0 && c.face == 0 ==> vcRectHas(result, 0, 0) && vcRectHas(result, 0, math.Pi/4) && vcRectHas(result, 0, -math.Pi/4) && vcRectHas(result, math.Pi/4, 0) && vcRectHas(result, -math.Pi/4, 0)
+//@   ensures [face1] c.level == 0 && c.face == 1 ==> vcRectHas(result, 0, math.Pi/2) && vcRectHas(result, 0, math.Pi/4) && vcRectHas(result, 0, 3*math.Pi/4) && vcRectHas(result, math.Pi/4, math.Pi/2) && vcRectHas(result, -math.Pi/4, math.Pi/2)
+//@   ensures [face2] c.level == 0 && c.face == 2 ==> vcRectHas(result, math.Pi/2, 0) && vcRectHas(result, math.Pi/4, 0) && vcRectHas(result, math.Pi/4, math.Pi/2) && vcRectHas(result, math.Pi/4, math.Pi) && vcRectHas(result, math.Pi/4, -math.Pi/2)
+//@   ensures [face3] c.level == 0 && c.face == 3 ==> vcRectHas(result, 0, math.Pi) && vcRectHas(result, 0, -math.Pi) && vcRectHas(result, 0, 3*math.Pi/4) && vcRectHas(result, 0, -3*math.Pi/4) && vcRectHas(result, math.Pi/4, math.Pi) && vcRectHas(result, -math.Pi/4, math.Pi)
+//@   ensures [face4] c.level == 0 && c.face == 4 ==> vcRectHas(result, 0, -math.Pi/2) && vcRectHas(result, 0, -math.Pi/4) && vcRectHas(result, 0, -3*math.Pi/4) && vcRectHas(result, math.Pi/4, -math.Pi/2) && vcRectHas(result, -math.Pi/4, -math.Pi/2)
+//@   ensures [face5] c.level == 0 && c.face == 5 ==> vcRectHas(result, -math.Pi/2, 0) && vcRectHas(result, -math.Pi/4, 0) && vcRectHas(result, -math.Pi/4, math.Pi/2) && vcRectHas(result, -math.Pi/4, math.Pi) && vcRectHas(result, -math.Pi/4, -math.Pi/2)
+// numerical (latitude/longitude of the uv corners, Atan2): the bound of a deeper cell is a valid rectangle; not proved
+//@   ensures [trusted.valid] result.IsValid()
+
+//@ property C12
 
 // ---------------------------------------------------------------- cell-to-cell distance: the closed-cell shortcuts
 
